@@ -1,3 +1,4 @@
+import os
 from lib.runner import PropCheck, Stream
 
 
@@ -360,6 +361,27 @@ class InmemTxn(TxnStream):
             "distinct = distinct op line")
 
 
+class BarrierTxn(TxnStream):
+    name = "txn-barrier"
+    driver = "txn-inmem"
+    harness = {"name": "c08barrier", "module": "root", "pkg": "./internal/zzverif/c08b",
+               "files": {"internal/zzverif/c08b/c08_test.go": "bb/c08/c08_test.go",
+                         "internal/zzverif/c08b/barrier_layer_test.go": "bb/c08/barrier_layer_test.go",
+                         "sdk/zzverif/vh/vh.go": "vh/vh.go"}}
+    testname = "TestVerifC08Barrier"
+    rule = ("the txn-inmem scheduler harness (same generator: 1-4 concurrently open transactions, plain readers/writers, "
+            "get/put/delete/list/listPage, random interleaving and commit order, use-after-finish, read-only transactions, "
+            "parent store dumped after every commit/rollback) over the REAL encrypting barrier (TransactionalAESGCMBarrier, "
+            "initialised and unsealed) on inmem's transactional backend — compared with the same transaction model "
+            "(the barrier is transparent); non-trivial / distinct as txn-inmem")
+
+    def env(self, tier, seed):
+        e = {"VERIF_TIER": tier, "VERIF_SEED": seed}
+        if "VERIF_C08_CASES" not in os.environ:
+            e["VERIF_C08_CASES"] = "1200" if tier != "thorough" else "60000"
+        return e
+
+
 class RaftTxn(TxnStream):
     name = "txn-raft"
     driver = "txn-raft"
@@ -385,7 +407,7 @@ class RaftTxn(TxnStream):
 
 class C08(PropCheck):
     pid = "C08"
-    streams = [InmemTxn(), RaftTxn()]
+    streams = [InmemTxn(), BarrierTxn(), RaftTxn()]
     level_text = ("Lean theorems. inmem (model InmemTxn = copy + log + replay at commit, spec SerialTxn = serial execution at "
                   "the commit point over a sorted map): inmem_commit_iff_serial, inmem_abort_restores, inmem_commit_unwritten, "
                   "inmem_serializable (induction over every schedule), txn_sees_snapshot_plus_own_writes, txn_result_is_logged, "
